@@ -76,7 +76,9 @@ func loadLegacy(c *TrieCase, b []byte, preload bool) (st *trie.SlimTrie, ec, pan
 			return nil, errClass(err), ""
 		}
 	}
-	if err := st.Unmarshal(append([]byte{}, b...)); err != nil {
+	var err2 error
+	watched(func() { err2 = st.Unmarshal(append([]byte{}, b...)) })
+	if err := err2; err != nil {
 		return nil, errClass(err), ""
 	}
 	return st, "", ""
